@@ -132,3 +132,20 @@ Theorem C08_source_default_fold_lent : forall f g pan a nd init,
   let '(o, m, t, c) := run_fold [a] false f g pan (pipe_of gen_default_fold nd) (length a) init in
   (m ++ t)%list = [].
 Proof. exact src_default_fold_lent_untouched. Qed.
+
+(* ---- T2: the bounds of the trait impls this property's operations come from, as they stand in the source now
+        (coq/gen/GenSigs.v gen_impl_bounds): code that is generic over the lengths / element type and states
+        exactly these bounds can call them ---- *)
+From Coq Require Import String.
+From GA Require Import SigDefs.
+From GAGen Require Import GenSigs.
+Local Open Scope string_scope.
+
+Theorem C08_source_impl_bounds :
+  bounds_of "unsafe GenericSequence<T> for GenericArray<T,N>" = Some ["N:ArrayLength"; "Self:IntoIterator<Item=T>"] /\
+  bounds_of "MappedGenericSequence<T,U> for GenericArray<T,N>" = Some ["GenericArray<U,N>:GenericSequence<U,Length=N>"; "N:ArrayLength"] /\
+  bounds_of "FunctionalSequence<T> for GenericArray<T,N>" = Some ["N:ArrayLength"; "Self:GenericSequence<T,Item=T,Length=N>"] /\
+  bounds_of "unsafe GenericSequence<T> for Box<GenericArray<T,N>>" = Some ["N:ArrayLength"] /\
+  bounds_of "MappedGenericSequence<T,U> for Box<GenericArray<T,N>>" = Some ["N:ArrayLength"] /\
+  bounds_of "FunctionalSequence<T> for Box<GenericArray<T,N>>" = Some ["N:ArrayLength"; "Self:GenericSequence<T,Item=T,Length=N>"].
+Proof. repeat split. Qed.
